@@ -3,11 +3,11 @@ package main
 // Forward VC generation for one function under contract.
 
 import (
-	"os"
 	"fmt"
 	"go/constant"
 	"go/token"
 	"go/types"
+	"os"
 	"sort"
 	"strings"
 
@@ -15,20 +15,22 @@ import (
 )
 
 type Oblig struct {
-	TimeoutS int // override (0 = default)
-	Reach    string
-	Name     string
-	Func     string
-	Kind     string
-	Label    string
-	Cut      int
-	Goal     string
-	Pos      string
-	Inputs   []string
-	Res      *SolveResult
-	Clause   *Clause
-	Callee   string
-	ex       *Exec
+	TimeoutS  int // override (0 = default)
+	Reach     string
+	StartCut  int  // script position where the CFG block of this obligation begins (-1: not a plain block)
+	MaybeDead bool // the path may legitimately be unreachable: not part of the vacuity check
+	Name      string
+	Func      string
+	Kind      string
+	Label     string
+	Cut       int
+	Goal      string
+	Pos       string
+	Inputs    []string
+	Res       *SolveResult
+	Clause    *Clause
+	Callee    string
+	ex        *Exec
 }
 
 type loopInfo struct {
@@ -39,6 +41,7 @@ type loopInfo struct {
 	// values at the head of an arbitrary iteration
 	headState *State
 	headVars  map[string]Val
+	frameVars []string
 	measure   string
 }
 
@@ -78,6 +81,11 @@ type Exec struct {
 	inl          *inlineCtx // ditto
 	abrupts      []abruptPt
 	realBlk      *ssa.BasicBlock
+	abruptFrame  bool
+	exitCut      map[*ssa.BasicBlock]int
+	frameMemo    *frameInfo
+	blockStart   map[string]int // reach condition of a CFG block -> script position where the block begins
+	deadCtx      int // >0: obligations generated now lie on a path that may legitimately be dead
 	abruptOn     int
 	inlineN      int
 }
@@ -141,6 +149,13 @@ func (ex *Exec) oblige(kind, label, goal string, p token.Pos) {
 	if root.con != nil && root.con.TimeoutS > 0 {
 		o.TimeoutS = root.con.TimeoutS
 	}
+	o.MaybeDead = ex.deadCtx > 0
+	o.StartCut = -1
+	if ex.curBlock != nil && ex.curBlock.Index > 0 {
+		if sc, ok := ex.blockStart[r]; ok {
+			o.StartCut = sc
+		}
+	}
 	ex.obligs = append(ex.obligs, o)
 	ex.e.assume(g)
 }
@@ -173,7 +188,7 @@ func (ex *Exec) paramVal(name string, t types.Type) Val {
 	ex.inputs = append(ex.inputs, c)
 	ex.e.assume(ex.e.rangeAssume(c, t))
 	if s == "Ref" {
-		ex.e.assume(fmt.Sprintf("(or (= %s nil) (select %s %s))", c, ex.entry.get("alloc"), c))
+		ex.e.assume(fmt.Sprintf("(or (= %s nil) (select %s (rootref %s)))", c, ex.entry.get("alloc"), c))
 	}
 	v := Val{T: c, S: s}
 	ex.rely(v, t)
@@ -361,6 +376,52 @@ func (ex *Exec) keepStable(extra map[string]bool) func(string) bool {
 	}
 }
 
+// closureOnlyReads: the closure uses the captured variable only by loading it.
+func closureOnlyReads(mc *ssa.MakeClosure, a *ssa.Alloc) bool {
+	fn, ok := mc.Fn.(*ssa.Function)
+	if !ok {
+		return false
+	}
+	for i, b := range mc.Bindings {
+		if b != ssa.Value(a) || i >= len(fn.FreeVars) {
+			continue
+		}
+		refs := fn.FreeVars[i].Referrers()
+		if refs == nil {
+			return false
+		}
+		for _, u := range *refs {
+			switch u := u.(type) {
+			case *ssa.UnOp, *ssa.DebugRef:
+			case *ssa.MakeClosure:
+				// passed on to a nested closure: that one must only read it as well
+				if nfn, ok := u.Fn.(*ssa.Function); ok {
+					for j, nb := range u.Bindings {
+						if nb == ssa.Value(fn.FreeVars[i]) && j < len(nfn.FreeVars) {
+							nrefs := nfn.FreeVars[j].Referrers()
+							if nrefs == nil {
+								return false
+							}
+							for _, nu := range *nrefs {
+								switch nu.(type) {
+								case *ssa.UnOp, *ssa.DebugRef:
+								default:
+									return false
+								}
+							}
+						}
+					}
+				} else {
+					return false
+				}
+			default:
+				return false
+			}
+		}
+	}
+	return true
+}
+
 // allocEscapes: can code outside this function reach the local? A local that is only captured by
 // closures which are deferred right away is touched by nothing but those deferred calls.
 func allocEscapes(a *ssa.Alloc) bool {
@@ -376,6 +437,9 @@ func allocEscapes(a *ssa.Alloc) bool {
 			}
 		case *ssa.UnOp, *ssa.DebugRef:
 		case *ssa.MakeClosure:
+			if closureOnlyReads(r, a) {
+				continue // whoever gets the closure can only read the variable through it
+			}
 			rr := r.Referrers()
 			if rr == nil {
 				return true
@@ -424,6 +488,12 @@ func (ex *Exec) holdForAbrupt(v Val, t types.Type) {
 // jsEffect2: abrupt = the unknown code ended in a panic: fields listed under abrupthavoc are not
 // preserved; instead the abruptrely clauses relate the state it leaves behind to the one before.
 func (ex *Exec) jsEffect2(st *State, abrupt bool) *State {
+	return ex.jsEffect3(st, abrupt, false)
+}
+
+// jsEffect3: goCode = the unknown code is a Go function of the package (a contract without a frame),
+// which may also assign the fields script is assumed to preserve.
+func (ex *Exec) jsEffect3(st *State, abrupt, goCode bool) *State {
 	esc := map[string]bool{}
 	for x := ex; x != nil; x = x.parent {
 		for a, n := range x.locals {
@@ -437,11 +507,23 @@ func (ex *Exec) jsEffect2(st *State, abrupt bool) *State {
 		k0 := keep
 		keep = func(name string) bool { return k0(name) && !ex.g.abruptHavoc[name] }
 	}
+	if goCode {
+		k1 := keep
+		keep = func(name string) bool { return k1(name) && !ex.g.jsPreserved[name] }
+	}
 	n := st.havocAll(keep)
 	n.heap["jsfx"] = "true"
-	if abrupt && ex.curBlock != nil {
+	if abrupt && !goCode && ex.curBlock != nil {
 		for _, h := range ex.rootExec().held {
 			ex.assumeHere(ex.clauseTerm(h.cl, map[string]Val{h.cl.ObsName: h.v}, n, st, false))
+		}
+		// ... and for every other object of the type (one reached later, or only named in a clause)
+		for _, cls := range ex.g.abruptRely {
+			for _, cl := range cls {
+				if t := ex.clauseTermAll(cl, n, st); t != "" {
+					ex.assumeHere(t)
+				}
+			}
 		}
 	}
 	if _, ok := ex.e.hsort["lastload"]; ok {
@@ -723,6 +805,14 @@ func (ex *Exec) execBlock(b *ssa.BasicBlock) {
 	}
 	ex.curBlock = b
 	ex.realBlk = b
+	if ex.blockStart == nil {
+		ex.blockStart = map[string]int{}
+	}
+	if r := ex.reach[b]; r != "" && r != "true" {
+		if _, ok := ex.blockStart[r]; !ok {
+			ex.blockStart[r] = len(e.lines)
+		}
+	}
 	if li != nil {
 		ex.loopHead(li)
 	}
@@ -737,6 +827,10 @@ func (ex *Exec) execBlock(b *ssa.BasicBlock) {
 		}
 	}
 	ex.exit[b] = ex.st
+	if ex.exitCut == nil {
+		ex.exitCut = map[*ssa.BasicBlock]int{}
+	}
+	ex.exitCut[b] = len(e.lines)
 	// back edges: invariants preserved
 	for _, s := range b.Succs {
 		if ex.back[[2]int{b.Index, s.Index}] {
@@ -866,6 +960,12 @@ func (ex *Exec) loopHead(li *loopInfo) {
 			ex.st.havoc(v)
 		}
 	}
+	// 2a. the function's frame is an implicit loop invariant: what the assigns clause does not
+	// mention is still as on entry (checked again on every back edge)
+	if !all && ex.parent == nil {
+		li.frameVars = ex.loopFrameVars(vars)
+		ex.assumeLoopFrame(li.frameVars)
+	}
 	for _, in := range li.header.Instrs {
 		phi, ok := in.(*ssa.Phi)
 		if !ok {
@@ -880,7 +980,7 @@ func (ex *Exec) loopHead(li *loopInfo) {
 		c := e.freshConst("lv_"+sanitize(phi.Comment), old.S)
 		e.assume(e.rangeAssume(c, phi.Type()))
 		if old.S == "Ref" {
-			e.assume(fmt.Sprintf("(or (= %s nil) (select %s %s))", c, ex.st.get("alloc"), c))
+			e.assume(fmt.Sprintf("(or (= %s nil) (select %s (rootref %s)))", c, ex.st.get("alloc"), c))
 		}
 		ex.vals[phi] = Val{T: c, S: old.S}
 	}
@@ -982,6 +1082,7 @@ func (ex *Exec) loopBack(li *loopInfo, from *ssa.BasicBlock) {
 		t := ex.clauseTerm(cl, vars, ex.st, ex.entry, true)
 		ex.oblige(fmt.Sprintf("loop%d-preserve", li.n), lbl, t, from.Instrs[len(from.Instrs)-1].Pos())
 	}
+	ex.checkLoopFrame(li.frameVars, li.n, from.Instrs[len(from.Instrs)-1].Pos())
 	if li.spec.Decreases != nil {
 		m := ex.clauseTerm(li.spec.Decreases, vars, ex.st, ex.entry, true)
 		ex.oblige(fmt.Sprintf("loop%d-decreases", li.n), "measure", fmt.Sprintf("(and (>= %s 0) (< %s %s))", li.measure, m, li.measure), from.Instrs[len(from.Instrs)-1].Pos())
@@ -1438,7 +1539,7 @@ func (ex *Exec) postChecks(in ssa.Instruction, r Val) {
 	}
 	// loaded references are allocated objects (well-formed heap)
 	if u, ok := in.(*ssa.UnOp); ok && u.Op == token.MUL && r.S == "Ref" && r.T != "" {
-		ex.e.assume(fmt.Sprintf("(or (= %s nil) (select %s %s))", r.T, ex.st.get("alloc"), r.T))
+		ex.e.assume(fmt.Sprintf("(or (= %s nil) (select %s (rootref %s)))", r.T, ex.st.get("alloc"), r.T))
 	}
 	if u, ok := in.(*ssa.UnOp); ok && u.Op == token.MUL && r.S == "Slice" && r.T != "" {
 		ex.e.assume(fmt.Sprintf("(or (= (s.arr %s) nilarr) (select %s (s.arr %s)))", r.T, ex.st.get("allocA"), r.T))
@@ -1508,6 +1609,14 @@ func (ex *Exec) doReturn(in *ssa.Return) {
 			}
 			ex.st = ex.exit[p].clone()
 			ex.reach[b] = c
+			if ex.blockStart == nil {
+				ex.blockStart = map[string]int{}
+			}
+			if _, seen := ex.blockStart[c]; !seen {
+				if cut, ok := ex.exitCut[p]; ok {
+					ex.blockStart[c] = cut
+				}
+			}
 			for _, x := range b.Instrs {
 				if phi, ok := x.(*ssa.Phi); ok {
 					if _, done := savedVals[phi]; !done {
@@ -1567,6 +1676,9 @@ func (ex *Exec) ensuresAtBlock(vals []Val, inPos token.Pos, blk *ssa.BasicBlock)
 		for _, p := range ex.con.ExitVars {
 			if v := ex.reachingDef(p.Name, b, pos); v != nil {
 				m[p.Name] = ex.get(v)
+			} else if val, ok := ex.exitVarVal(p.Name); ok {
+				// e.g. the recover block, which no block dominates
+				m[p.Name] = val
 			} else {
 				// not defined on the way to this return: unconstrained
 				for _, cl := range ex.con.Ensures {
@@ -1587,6 +1699,9 @@ func (ex *Exec) ensuresAtBlock(vals []Val, inPos token.Pos, blk *ssa.BasicBlock)
 		}
 	}
 	for i, cl := range ex.con.Ensures {
+		if cl.Assumed {
+			continue
+		}
 		lbl := cl.Label
 		if lbl == "" {
 			lbl = fmt.Sprintf("%d", i+1)
@@ -1675,4 +1790,54 @@ func trivialBool(e *Emitter, t string) string {
 		return "false"
 	}
 	return ""
+}
+
+// clauseTermAll: a clause over an observed object, universally quantified over that object.
+func (ex *Exec) clauseTermAll(cl *Clause, cur, old *State) string {
+	if cl.Fn == nil || len(cl.Names) == 0 || cl.Names[0] != cl.ObsName {
+		return ""
+	}
+	env := ex.env
+	nb := len(cl.Bound)
+	var av []Val
+	var binders, ranges, bnames []string
+	for i, nm := range cl.Names {
+		pt := cl.Fn.Params[i].Type()
+		s := ex.e.sortOf(pt)
+		if i == 0 || i >= len(cl.Names)-nb {
+			bn := ex.e.fresh("bv_" + nm)
+			binders = append(binders, fmt.Sprintf("(%s %s)", bn, s))
+			bnames = append(bnames, bn)
+			if r := ex.e.rangeAssume(bn, pt); r != "" {
+				ranges = append(ranges, r)
+			}
+			if i == 0 {
+				ranges = append(ranges, fmt.Sprintf("(not (= %s nil))", bn))
+			}
+			av = append(av, Val{T: bn, S: s})
+			continue
+		}
+		return "" // other free names: not supported here
+	}
+	saved, savedSide := env.quant, env.side
+	env.quant = true
+	r := env.evalPure(cl.Fn, av, nil, cur, old, 0)
+	env.quant, env.side = saved, savedSide
+	if len(env.errs) > 0 {
+		env.errs = nil
+		return ""
+	}
+	body := r.T
+	if len(ranges) > 0 {
+		body = fmt.Sprintf("(=> (and %s) %s)", strings.Join(ranges, " "), body)
+	}
+	if pats := autoPatterns(body, bnames); pats != "" {
+		return fmt.Sprintf("(forall (%s) (! %s %s))", strings.Join(binders, " "), body, pats)
+	}
+	return fmt.Sprintf("(forall (%s) %s)", strings.Join(binders, " "), body)
+}
+
+func (ex *Exec) hasVal(v ssa.Value) bool {
+	_, ok := ex.vals[v]
+	return ok
 }
